@@ -1133,7 +1133,14 @@ func (x *exec) census(u *Unit, c *spec.Census) {
 					case ssa.CallInstruction:
 						cc := in.Common()
 						if f := cc.StaticCallee(); f != nil && len(cc.Args) > 0 && isIntrinsicKey(FuncKey(f)) {
-							if m := f.Name(); m != "Load" && m != "RLock" && m != "RUnlock" {
+							m := f.Name()
+							if o := f.Origin(); o != nil {
+								m = o.Name() // methods of generic atomics (atomic.Pointer[T]) are instances named after their type arguments
+							}
+							if i := strings.Index(m, "["); i > 0 {
+								m = m[:i]
+							}
+							if m != "Load" && m != "RLock" && m != "RUnlock" {
 								addr = cc.Args[0]
 							}
 						}
